@@ -398,15 +398,16 @@ class LearnExplorer(Explorer):
         return Explorer._check_display(self, s, disp, hist, ev, label)
 
 
-def e2e_walk(ctx, build, scratch, exe, cat, m, tier):
+def e2e_walk(ctx, build, scratch, exe, cat, m, tier, flags=("-l",)):
     model = "nosv" if m == "V" else "nanos6"
+    tagx = "" if tuple(flags) == ("-l",) else " " + " ".join(flags)
     rank = 2
     spec = [{"name": "A", "cpus": [(0, 0), (1, 1), (2, 2)],
              "procs": [{"pid": 100, "threads": [101, 102, 103], "rank": rank, "nranks": 4}]}]
     req = {"ovni": cat["ovni"]["version"], model: cat[model]["version"]}
-    system = emusrv.System(spec, require=req)
-    td = system.write(scratch.sub("trace-" + model))
-    pool = ServerPool(exe, td, ["-l"])
+    system = emusrv.System(spec, require=req, extra_meta=({"*": {model: {"can_breakdown": True}}} if "-b" in flags else None))
+    td = system.write(scratch.sub("trace-" + model + tagx.replace(" ", "")))
+    pool = ServerPool(exe, td, list(flags))
     pool.meta = system.meta if "system" in dir() else None
     try:
         s = pool.local.streams
@@ -423,19 +424,19 @@ def e2e_walk(ctx, build, scratch, exe, cat, m, tier):
         try:
             pp = PrefixPool(pool, prefix)
         except PrefixRefused as e:
-            report_prefix(ctx, e, "e2e-" + model, pool.flags, spec)
+            report_prefix(ctx, e, "e2e-" + model + tagx, pool.flags, spec)
             return
         ref = TaskRef(m, sidx, rows=[1, 2], cpurows=[1, 2], rank=rank, depth=2)
         ref.spec = spec
-        ex = LearnExplorer(ctx, pp, ref, name="e2e-" + model, report_props={"C07"}, check_time=False,
+        ex = LearnExplorer(ctx, pp, ref, name="e2e-" + model + tagx, report_props={"C07"}, check_time=False,
                            max_depth=(5 if tier == "quick" else 8), max_states=(4000 if tier == "quick" else 60000))
         st = ex.run()
         gids = {str(k[1]): v for k, v in ref.learn_map.items()}
-        ctx.part("e2e-" + model, learned_gid_by_task=gids, body_subsystem_value=ref.body_ss)
+        ctx.part("e2e-" + model + tagx, learned_gid_by_task=gids, body_subsystem_value=ref.body_ss)
         if len(set(gids.values())) < len(gids) and len(gids) > 1 and gids.get("1") == gids.get("2"):
             ctx.violation("%s: tasks 1 and 2 have different types but the timeline shows the same type value %r" % (model, gids),
                           {"engine": "E3", "check": "type-distinct", "model": model}, {"kind": "type-distinct"})
-        if not ctx.nviol:
+        if not ctx.nviol and not tagx:
             t0 = sidx[0]
             T = m + "T"
             pay = (lambda t, b=0: u32(t, b)) if m == "V" else (lambda t, b=0: u32(t))
@@ -510,6 +511,9 @@ def run(prop, tier):
                 ctx.cap("end-to-end walk %s not started" % m)
                 continue
             e2e_walk(ctx, build, scratch, exe, cat, m, tier)
+            # the same acceptance condition and rows with the breakdown view switched on
+            if not ctx.out_of_time(0.6):
+                e2e_walk(ctx, build, scratch, exe, cat, m, tier, flags=("-l", "-b"))
         for m in ("V", "6"):
             if ctx.out_of_time(0.8):
                 ctx.cap("two-process end-to-end walk %s not started" % m)
